@@ -43,7 +43,8 @@ def sigidx(toks, lo=0, hi=None):
 def find_impl(toks, header):
     """Return (open_brace_idx, close_brace_idx) of the impl block whose header
     (text between `impl` and `{`, whitespace-insensitive) equals `header`."""
-    want = norm(header)
+    sub = header.startswith('~')
+    want = norm(header[1:] if sub else header)
     hits = []
     s = sigidx(toks)
     for a, k in enumerate(s):
@@ -57,7 +58,7 @@ def find_impl(toks, header):
                 b += 1
                 if len(acc) > 400:
                     break
-            if b < len(s) and ''.join(acc) == want:
+            if b < len(s) and (''.join(acc) == want or (sub and want in ''.join(acc))):
                 ob = s[b]
                 hits.append((ob, match_close(toks, ob)))
     if not hits:
